@@ -1932,6 +1932,17 @@ unit(name="SrcOrf", props="property C20", file="src/seq_analysis/orf.rs", dialec
                      theorem="RbV.Thm.GenSrcOrf.next_eq_model")])
 
 
+unit(name="SrcGc", props="property C20", file="src/seq_analysis/gc.rs", dialect="cf",
+     generics={"f32": "F"},
+     # the `f32` division stays outside: `x as f32` and `/` on `f32` are abstract functions of the translated definition
+     abstract_fns={"as:usize:f32": dict(lean="toF32", args=["usize"], ret="f32"),
+                   "op:/:f32": dict(lean="fdiv", args=["f32", "f32"], ret="f32")},
+     functions=[dict(name="gcn_content", lean="gcnContent",
+                     header="fn gcn_content<C: Borrow<u8>, T: IntoIterator<Item = C>>(sequence: T, step: usize) -> f32",
+                     params=[("sequence", "&[u8]"), ("step", "usize")], ret="f32",
+                     theorem="RbV.Thm.GenSrcGc.gcnContent_eq_model")])
+
+
 # ================================================================================================== self-test
 
 SELFTEST_RS = r"""
